@@ -1,9 +1,26 @@
 (* C19 — Sender and hidden-recipient identities stay hidden; recipient order is
    a uniformly distributed permutation.
    This file contains only the property theorems, each closed by `exact` of a
-   lemma from proofs/, followed by Print Assumptions. *)
+   lemma from proofs/, followed by (* SOURCE TIE: the term f_saltpack_csprngUint32n is generated on every run from the Go syntax tree of
+   /repo's csprngUint32n (harness/cmd/gen/goast.go); under the Go semantics of model/GoLang.v it computes
+   exactly what the model says, for ALL arguments.  An edit of that function in /repo changes
+   the term and this theorem has to be re-established. *)
+Theorem C19_source_csprngUint32n (n : N) (r : rng) :
+  (0 < n < 4294967296)%N ->
+  let o := run_func ext_rand f_saltpack_csprngUint32n [VBytes r; VInt (Z.of_N n)] in
+  (exists w, o = OStuck w /\ (w = "loop fuel"%string \/ w = "fuel"%string)) \/
+  o = match uint32n n r with
+      | Some (k, _) => ORet [VInt (Z.of_N k); VNil]
+      | None => ORet [VInt 0; VErr "ErrRand"%string []]
+      end.
+Proof. exact (go_csprngUint32n n r). Qed.
+
+Print Assumptions C19_source_csprngUint32n.
+Print Assumptions. *)
 From Coq Require Import List NArith Permutation.
 From SP Require Import Bytes Rand RandProofs.
+From SP Require Import GoLang GoAst GoAstProofs.
+From Coq Require String.
 Import ListNotations.
 Open Scope N_scope.
 
